@@ -10,11 +10,13 @@ var _ = Service("svc", func() {
 			Attribute("tags", ArrayOf(String))
 			Attribute("ids", ArrayOf(Int))
 			Attribute("lim", Int, func() { Default(10) })
-			Required("lim")
+			Attribute("names", ArrayOf(String), func() { Default([]string{"x"}) })
+			Required("lim", "names")
 		})
 		HTTP(func() {
 			POST("/first")
 			Param("lim")
+			Param("names")
 		})
 	})
 	Method("second", func() {
